@@ -44,6 +44,14 @@ POOL = [
     [T("h{AE}llo")], [T("{HAN}{HAN}"), D, T("z")], [T("k"), D, T("{AE}"), D, T("z"), D],
 ]
 POOL_ML = [[T("l1{NL}l2")], [T("z"), D, T("m"), W("{NL}")], [W("{NL}"), T("x")]]
+# with the two-character delimiter "--": fields that end in one of the delimiter's characters
+POOL_DD = [[T("key"), D, T("value-")], [T("q-")], [T("a-"), W(" "), D, T("z")], [T("z"), D, T("-")], [T("z"), D, T("w-"), W(" ")]]
+DELIMS = [",", ",", "--", ", "]
+
+
+def with_delim(items, ds):
+    return [[dict(p, s=ds) if p["t"] == "delim" else p for p in it] for it in items]
+
 
 
 def rec_bytes(item):
@@ -52,11 +60,11 @@ def rec_bytes(item):
 
 def gen_opts(rng):
     return {"printQuery": rng.random() < 0.4, "expect": False, "print0": rng.random() < 0.3, "ansi": rng.random() < 0.5,
-            "acceptNth": 0, "withNth": rng.choice([0, 0, 1, 2, -1, 3]), "multi": True}
+            "acceptNth": 0, "withNth": rng.choice([0, 0, 1, 2, -1, 3]), "multi": True, "delim": rng.choice(DELIMS)}
 
 
 def opt_args(o, read0):
-    a = ["--delimiter", ","]
+    a = ["--delimiter", o.get("delim", ",")]
     if o["printQuery"]:
         a.append("--print-query")
     if o["print0"]:
@@ -95,8 +103,8 @@ def make_input(rng, items, read0):
 def filter_case(ctx, fzf, rng, n):
     read0 = rng.random() < 0.3
     o = gen_opts(rng)
-    pool = POOL + (POOL_ML if (read0 and o["print0"]) else [])
-    items = [rng.choice(pool) for _ in range(rng.choice([0, 1, 2, 3, 5, 8]))]
+    pool = POOL + (POOL_ML if (read0 and o["print0"]) else []) + (POOL_DD if o["delim"] == "--" else [])
+    items = with_delim([rng.choice(pool) for _ in range(rng.choice([0, 1, 2, 3, 5, 8]))], o["delim"])
     marker = rng.choice(["", "z", "z"])
     path = rng.choice(["sorted", "stream", "nosort-sync"])
     args = ["-f", marker] + opt_args(o, read0)
@@ -127,8 +135,8 @@ def session_case(rng, n):
     o["acceptNth"] = rng.choice([0, 0, 1, 2, -1])
     o["multi"] = rng.random() < 0.7
     read0 = rng.random() < 0.2
-    pool = POOL + (POOL_ML if (read0 and o["print0"]) else [])
-    items = [rng.choice(pool) for _ in range(rng.choice([0, 1, 3, 5, 8]))]
+    pool = POOL + (POOL_ML if (read0 and o["print0"]) else []) + (POOL_DD * 2 if o["delim"] == "--" else [])
+    items = with_delim([rng.choice(pool) for _ in range(rng.choice([0, 1, 3, 5, 8]))], o["delim"])
     steps = []
     for _ in range(rng.randint(0, 10)):
         r = rng.random()
@@ -157,18 +165,29 @@ DIRECTED = [
     {"multi": True, "steps": ["toggle+down", "toggle", "change-query(zzq)"], "final": "accept"},
     {"multi": True, "print0": True, "expect": True, "steps": ["select-all"], "final": "expect", "min_items": 3},
     {"multi": True, "steps": ["toggle", "change-query(zzq)"], "final": "print-query"},
+    # --accept-nth with a two-character delimiter: fields ending in one of its characters, empty trailing fields
+    {"multi": True, "delim": "--", "acceptNth": 2, "pool": "dd", "steps": ["select-all"], "final": "accept", "min_items": 4},
+    {"multi": True, "delim": "--", "acceptNth": -1, "pool": "dd", "steps": ["select-all"], "final": "accept", "min_items": 4},
+    {"multi": True, "delim": ",", "acceptNth": -1, "steps": ["select-all"], "final": "accept", "min_items": 5},
 ]
 
 
 def directed_case(rng, n, k):
     d = DIRECTED[k % len(DIRECTED)]
     c = session_case(rng, n)
-    for key in ("multi", "print0", "printQuery", "expect"):
+    for key in ("multi", "print0", "printQuery", "expect", "delim", "acceptNth"):
         if key in d:
             c["o"][key] = d[key]
+    if "delim" in d:
+        c["items"] = []          # rebuilt below with the forced delimiter
+    if d.get("pool") == "dd":
+        c["read0"] = False
+        c["items"] = with_delim([rng.choice(POOL_DD) for _ in range(3)] + [rng.choice(POOL) for _ in range(2)], d["delim"])
+        rng.shuffle(c["items"])
+        c["stdin"] = make_input(rng, c["items"], c["read0"])
     if len(c["items"]) < d.get("min_items", 2):
-        pool = POOL + (POOL_ML if (c["read0"] and c["o"]["print0"]) else [])
-        c["items"] = [rng.choice(pool) for _ in range(d.get("min_items", 2) + rng.randint(0, 3))]
+        pool = POOL + (POOL_ML if (c["read0"] and c["o"]["print0"]) else []) + (POOL_DD if c["o"]["delim"] == "--" else [])
+        c["items"] = with_delim([rng.choice(pool) for _ in range(d.get("min_items", 2) + rng.randint(0, 3))], c["o"]["delim"])
         c["stdin"] = make_input(rng, c["items"], c["read0"])
     c["o"]["withNth"] = 0          # every item searchable, so that the toggles land on items
     c["steps"] = [("post", a) for a in d["steps"]]
@@ -270,7 +289,11 @@ def auto_case(rng, n):
     o = gen_opts(rng)
     o["expect"] = rng.random() < 0.4
     o["acceptNth"] = rng.choice([0, 0, 1, 2])
-    items = [rng.choice(POOL) for _ in range(rng.choice([0, 1, 1, 2, 3]))]
+    items = with_delim([rng.choice(POOL + (POOL_DD * 2 if o["delim"] == "--" else [])) for _ in range(rng.choice([0, 1, 1, 2, 3]))], o["delim"])
+    if n % 6 == 5:       # a single record of the two-character-delimiter pool, accepted by --select-1 with --accept-nth
+        o["delim"], o["acceptNth"] = "--", rng.choice([2, -1, 1])
+        items = with_delim([rng.choice(POOL_DD)], "--")
+        return {"id": n, "o": o, "items": items, "marker": "", "select1": True, "exit0": rng.random() < 0.5, "stdin": make_input(rng, items, False)}
     return {"id": n, "o": o, "items": items, "marker": rng.choice(["", "z", "z"]), "select1": rng.random() < 0.7, "exit0": rng.random() < 0.5,
             "stdin": make_input(rng, items, False)}
 
@@ -301,7 +324,7 @@ def run(ctx):
     ctx.mc("MC_Output", "MC_Output.cfg", timeout=900, workers=8)
     fzf = ctx.build_fzf()
     rng = ctx.rng
-    nf, ns, na = ctx.pick((500, 40, 24), (40000, 1500, 600))
+    nf, ns, na = ctx.pick((500, 44, 24), (40000, 1500, 600))
     fcases = [filter_case(ctx, fzf, rng, i) for i in range(nf)]
     nd = ctx.pick(len(DIRECTED), 6 * len(DIRECTED))
     scases = [directed_case(rng, i, i) for i in range(nd)] + [session_case(rng, i) for i in range(nd, ns)]
